@@ -128,6 +128,11 @@ func genC16(r *Rng, e *Emitter, n int) {
 		if !r.chance(1, 4) {
 			ncoord = 1 + r.Intn(5)
 		}
+		if h < 3 {
+			// very large geometries (copy loops that split their work, pooled buffers): a whole number of
+			// coordinates just past 65536 ordinates, a power of two, and an odd size
+			ncoord = []int{40001, 32768, 16385}[h]
+		}
 		switch r.Intn(9) {
 		case 0: // Point
 			kind = "g1"
